@@ -39,6 +39,10 @@ def cuts(rng, n, style):
     return [s for s in sizes if s > 0]
 
 
+# real sockets / real time: a verdict must persist when the case is re-run on its own (2 of 3)
+RETRY_PREFIX = "*"
+
+
 def gen_cases(rng, ctx):
     thorough = ctx["tier"] == "thorough" or ctx.get("widened")
     cases = []
